@@ -765,11 +765,21 @@ def readMds : Nat → Bytes → Option (List (Bytes × Nat))
        | _ => none)
     | _ => none
 
+/-- the instruction is printed on ONE line (no continuation lines: also a landingpad without `cleanup` and without clauses) -/
+def extIsNone : Ext → Bool
+  | .none => true
+  | .clauses false [] => true
+  | _ => false
+
+/-- rows whose grammar production (llir/ll, `FreezeInst`) has NO metadata attachments: the printer writes `Metadata` of such an instruction, the parser
+    rejects the text (recorded finding C01-freeze-attachment-rejected) -/
+def noMdRows : List Nat := [44]
+
 /-- one instruction line (without the leading tab): the instruction, then its attachments -/
 def readInstMd (s : Bytes) : Option Inst :=
   let (body, rest) := splitMd false s
   match readInst body, readMds (rest.length + 1) rest with
-  | some i, some md => some { i with md := md }
+  | some i, some md => if noMdRows.contains i.row && !md.isEmpty then none else some { i with md := md }
   | _, _ => none
 
 /-! ### blocks and functions -/
@@ -970,6 +980,9 @@ def readBody' : Nat → List Bytes → Option (List Inst × Inst × List Bytes)
         match readExt i0.row ls with
         | none => none
         | some (x, ls) =>
+        -- (a switch / invoke / landingpad carries its attachments at the end of its LAST line, which is outside the fragment: on the first line they are
+        -- a syntax error)
+        if !i0.md.isEmpty && !extIsNone x then none else
         let i : Inst := { i0 with ext := x }
         if isTerm i then some ([], i, ls)
         else match readBody' f ls with
@@ -1503,7 +1516,7 @@ def wfSem (f : Func) : Bool := wfSemIn (selfEnv f) f && (mdUses f).isEmpty
     itself free of `, !` outside quoted names (decidable; evaluated by the driver on every generated function) -/
 def mdInstOKB (useHex : Int → Bool) (i : Inst) : Bool :=
   i.md.all (fun a => !a.1.isEmpty && decide (a.2 < 2 ^ 63)) && scanMd false (instString useHex i) == some false &&
-    (i.md.isEmpty || (match i.ext with | .none => true | _ => false))
+    (i.md.isEmpty || (extIsNone i.ext && !noMdRows.contains i.row))
 
 def mdWF (useHex : Int → Bool) (f : Func) : Bool := f.blocks.all fun b => (instsOf b).all (mdInstOKB useHex)
 
